@@ -14,7 +14,7 @@ RULE = ('one case = a random unit family (3-4 clusters of DIFFERENT dimension, e
         'add_conversion_rule calls (linear rules rhs*K, rhs/K, rhs*Cs/Cm; numeric small-prime or symbolic magnitudes: '
         'sympy Symbol, sympy function application, cellmlmanip Variable; written for units other than the ones '
         'converted; chains, reverse rules, overriding rules, shortcuts, occasionally a dimensionally wrong rule) '
-        'interleaved with 60-100 queries: get_conversion_factor / convert over the rule, over chains, in the reverse '
+        'interleaved with 35-60 queries: get_conversion_factor / convert over the rule, over chains, in the reverse '
         'direction, between unconnected dimensions, and a fixed set of same-dimension pairs re-asked before and after '
         'every registration; plus Model.convert_variable (plain / defined / state / free variable, INPUT and OUTPUT, '
         'with and without initial value). non-trivial = at least one rule registered and at least one query answered '
@@ -120,14 +120,20 @@ def gen_mag(rng, symbolic):
     return ['num', rng.choice(NUM_MAGS)]
 
 
-def gen_rule(rng, clusters, i, j, symbolic, wrong=False):
-    """rule D_i -> D_j written for arbitrary units of the two dimensions"""
+def gen_rule(rng, clusters, i, j, symbolic, wrong=False, undo=None):
+    """rule D_i -> D_j written for arbitrary units of the two dimensions; `undo`: a single-factor body of an earlier
+    rule whose symbol this one cancels (rhs * Cs there, rhs / Cs here)"""
     fr, to = spell(rng, clusters, i), spell(rng, clusters, j)
     s, t = spell(rng, clusters, i), spell(rng, clusters, j)
     if wrong:
         t = spell(rng, clusters, rng.choice([c for c in range(len(clusters)) if c != j]))
     form = rng.random()
-    if form < 0.4:
+    if undo is not None and undo[1][0] == 'sym':
+        if undo[0] == 'mul':
+            body = [['div', list(undo[1]), s + neg(t)]]
+        else:
+            body = [['mul', list(undo[1]), t + neg(s)]]
+    elif form < 0.4:
         body = [['mul', gen_mag(rng, symbolic), t + neg(s)]]
     elif form < 0.65:
         body = [['div', gen_mag(rng, symbolic), s + neg(t)]]
@@ -135,6 +141,8 @@ def gen_rule(rng, clusters, i, j, symbolic, wrong=False):
         x = spell(rng, clusters, rng.randrange(len(clusters)), plain=True)
         m1 = gen_mag(rng, symbolic)
         m2 = gen_mag(rng, symbolic and rng.random() < 0.5)
+        if m1[0] == 'sym' and m2[0] == 'sym' and rng.random() < 0.3:
+            m2 = list(m1)              # the same symbol above and below: the symbolic part cancels
         body = [['mul', m1, t + x], ['div', m2, s + x]]
         if rng.random() < 0.3:
             body.reverse()
@@ -236,7 +244,9 @@ def make_case(rng):
         e2 = (i, j)                # overrides rule 1
     else:
         e2 = (i, l)                # a second, unrelated rule from the same source
-    steps.append(gen_rule(rng, clusters, e2[0], e2[1], sym2))
+    first = [q for q in steps if q[0] == 'rule'][0][3]
+    undo = first[0] if (len(first) == 1 and e2 == (j, l) and rng.random() < 0.25) else None
+    steps.append(gen_rule(rng, clusters, e2[0], e2[1], sym2, undo=undo))
     edges.add(e2)
     steps += gen_queries(rng, clusters, edges, same_pairs, dimless_ci)
     steps += gen_cv(rng, clusters, edges, 2)
@@ -456,7 +466,10 @@ def impl(case):
             elif q[0] == 'factor':
                 a, b = U.impl_unit(stores, q[1]), U.impl_unit(stores, q[2])
                 cf = stores[q[1][0][0]].get_conversion_factor(a, b)
-                res.append('one' if (isinstance(cf, int) and cf == 1) else decompose(cf, symtab))
+                d = 'one' if (isinstance(cf, int) and cf == 1) else decompose(cf, symtab)
+                if isinstance(d, list) and d[0] == 'f':
+                    d = d + [type(cf).__name__]
+                res.append(d)
             elif q[0] == 'convert':
                 a, b = U.impl_unit(stores, q[2]), U.impl_unit(stores, q[3])
                 st = stores[q[2][0][0]]
@@ -730,6 +743,8 @@ def oracle(case, obs):
                                                      else 'no rule path connects the dimensions'))
                 continue
         if q[0] == 'factor':
+            if isinstance(o, list) and o[0] == 'f' and len(o) > 2 and o[2] not in ('float', 'int'):
+                fail('factor-number-type', idx, '%s returned the number %s as a %s' % (what, o[1], o[2]))
             if not matches(exp, value_of(o)):
                 fail(('rule-factor' if via_rule else 'factor-not-ratio') + src_dimless, idx, '%s gave %s, expected %s'
                      % (what, o, [(mpmath.nstr(e[1], 12), e[2]) for e in exp if e[0] == 'ok']))
@@ -861,7 +876,9 @@ MANIFEST = {
              'and repaired (commit d507e18): UnitStore.convert sent every conversion FROM the unit `dimensionless` '
              'through the inverse of the conversion TO it, so rules from the dimensionless dimension were ignored for '
              'that one unit and rules to it were applied backwards (convert_before_fix_*_counterexample on the model of '
-             'the old code). Tie: seeded correspondence of the compiled model with units.py/model.py + pint 0.18 + sympy '
+             'the old code). Second defect found by the correspondence and repaired (commit 70cf6dd): when the symbolic '
+             'coefficients cancel get_conversion_factor returned a SymPy number, and convert_variable raised TypeError on '
+             'a SymPy Integer/Rational factor. Tie: seeded correspondence of the compiled model with units.py/model.py + pint 0.18 + sympy '
              '— random families with 3-4 dimensions, 2-3 rules per script (numeric and symbolic coefficients, chains, '
              'reverse, overriding and wrong rules), get_conversion_factor / convert / Model.convert_variable, '
              'symbolic factors compared as (coefficient, symbol multiset); an independent exact oracle (CellML unit '
